@@ -1,6 +1,7 @@
 import Driver.Util
 import Driver.PyJson
 import Torf.Model.Untrusted
+import Torf.Model.QueryString
 open Lean Torf Torf.Bencode Torf.Untrusted
 namespace Driver.C08
 
@@ -78,9 +79,10 @@ def readOp (j : Json) : Except String Json := do
       let d := dumpT env t true
       let dn := dumpT envNV t false
       let unf := Validate.dumpNoValidate t
+      let ih := infohashT env t
       let encNeed := 3 + encFramesKvs (Validate.ensureInfo t)
       ([("validate", jstr (kindOf v)), ("dump", jstr (kindOf d)), ("dumpnv", jstr (kindOf dn)),
-        ("encNeed", jnat encNeed)],
+        ("infohash", jstr (kindOf ih)), ("encNeed", jnat encNeed)],
        [("files", jbool (Validate.filesNotMapping t)),
         ("encFuel", jbool (encNeed ≤ env.encFuel)), ("encFuelNV", jbool (encNeed ≤ envNV.encFuel)),
         -- a ValueError of the encoder and a RecursionError compete: which comes first depends on
@@ -127,19 +129,53 @@ def mkOracle (j : Json) : Except String MagnetOracle := do
            intOf := fun s => (ints.lookup s).getD none,
            split := fun s => (s.splitOn " ").filter (· != "") }
 
-/-- op `c08.magnet`: {uri, urlparse, qs, urls, ints} ↦ kind and the stored info hash -/
+/-- table of (string with '%', `unquote(string)`) supplied by the harness; strings without '%' never
+    reach it (`Untrusted.unquote`), unknown strings stay as they are -/
+def getPct (j : Json) : Except String (String → String) := do
+  match j.getObjVal? "pct" with
+  | .error _ => pure id
+  | .ok a =>
+    let tbl ← (← a.getArr?).toList.mapM fun e => do
+      let p ← e.getArr?
+      if h : p.size = 2 then pure ((← p[0].getStr?), (← p[1].getStr?)) else throw "pct entry"
+    pure fun s => (tbl.lookup s).getD s
+
+/-- op `c08.magnet`: {uri, urlparse, qs, urls, ints, pct} ↦ kind and the stored info hash.  The
+    model is `fromStringQ` with the modelled `parse_qs` (options as the code passes them); the
+    harness's `parse_qs` result `qs` is only compared with the model's (`qsAgree`). -/
 def magnetOp (j : Json) : Except String Json := do
   let uri ← getStr j "uri"
   let o ← mkOracle j
-  let r := fromString o uri
+  let pct ← getPct j
+  let r := fromStringQ o pct {} uri
+  let rOracle := fromString o uri
+  let (qsAgree, nf) : Bool × Nat :=
+    match o.urlparse uri with
+    | none => (true, 0)
+    | some (_, query) => (parseQs pct query == o.parseQs query, numFields query.toList)
   let qsOk := (o.parseQs "").all fun kv => !kv.2.isEmpty
   return jobj [("model", jobj [("kind", jstr (kindOf r)),
                                ("infohash", match r with | .ok m => jstr m.infohash | .error _ => Json.null),
                                ("xl", match r with
                                       | .ok m => (match m.xl with | some n => jstr (toString n) | none => Json.null)
                                       | .error _ => Json.null)]),
+               ("modelOracleQs", jstr (kindOf rOracle)),
+               ("qsAgree", jbool qsAgree), ("numFields", jnat nf),
                ("spec", jarr (["ok", "magnet", "url"].map jstr)),
-               ("hyp", jbool qsOk), ("hypName", jstr "parse_qs yields no empty value list")]
+               ("hyp", jbool true), ("hypOracle", jbool qsOk),
+               ("hypName", jstr "none (C08_magnet_documented); for the oracle variant: parse_qs yields no empty value list")]
+
+/-- op `c08.qs`: {query, pct, maxNumFields?, strict?} ↦ the modelled `parse_qs` under explicit
+    options: the pairs or "ValueError" -/
+def qsOp (j : Json) : Except String Json := do
+  let query ← getStr j "query"
+  let pct ← getPct j
+  let opts : QsOpts := { maxNumFields := getOptNat j "maxNumFields",
+                         strictParsing := (j.getObjValAs? Bool "strict").toOption.getD false }
+  return match parseQsE pct opts query with
+    | .error r => jobj [("raise", jstr (raiseName r)), ("numFields", jnat (numFields query.toList))]
+    | .ok q => jobj [("qs", jarr (q.map fun kv => jarr [jstr kv.1, jarr (kv.2.map jstr)])),
+                     ("numFields", jnat (numFields query.toList))]
 
 /-- op `c08.xt`: {v} ↦ does the xt setter accept the string (regex model) -/
 def xtOp (j : Json) : Except String Json := do
@@ -151,6 +187,7 @@ def handle (op : String) (j : Json) : Except String Json :=
   | "c08.read" => readOp j
   | "c08.magnet" => magnetOp j
   | "c08.xt" => xtOp j
+  | "c08.qs" => qsOp j
   | _ => throw s!"unknown op {op}"
 
 end Driver.C08
